@@ -4,6 +4,10 @@
    ubfree OP W S LW LLW A B     -> 1/0 (and of the helper's ub-free predicate over the 8 choices)
    spur   B OP W S LW LLW A B   -> 1/0
    neg C W S A | abs W A | div W S BC A B | dispatch B OP IW LW LLW W S A B | sdiv W A B | udiv W A B
+   td FX CMP B OP IW LW LLW W S A B -> "V n" | "O" | "UB"   (typedef'd result type; CMP lt|le; all 8
+        is_constant choices must agree)
+   choice CMP IW LW LLW W S -> "narrow" | "base W S" | "fatal"
+   ngop GILFIXED INNOGIL B OP W S LW LLW A B -> "V n" | "O" | "UB"   (checked operation in a nogil context)
    tree B W LW LLW S FOLD ENV tok...   (prefix expression: + - * << vN cN) -> "V n" | "O" | "LOST" *)
 let zs = z_of_string
 let bs = bool_of_string
@@ -78,6 +82,26 @@ let handle = function
        | None -> "LOST"
        | Some None -> "O"
        | Some (Some v) -> "V " ^ string_of_z v)
+  | ["td"; fx; c; bi; op; iw; lw; llw; w; s; a; b] ->
+      let c = (match c with "lt" -> CmpLt | "le" -> CmpLe | _ -> failwith "cmp") in
+      let f (cb, ca, sw) =
+        string_of_oc (typedef_node (bs fx) c (bs bi) (cop_of op) (zs iw) (zs lw) (zs llw) (zs w) (bs s) cb ca sw (zs a) (zs b)) in
+      let rs = List.map f bools3 in
+      let r0 = List.hd rs in
+      if List.for_all (fun r -> r = r0) rs then r0 else "!DISAGREE " ^ String.concat "|" rs
+  | ["choice"; c; iw; lw; llw; w; s] ->
+      let c = (match c with "lt" -> CmpLt | "le" -> CmpLe | _ -> failwith "cmp") in
+      (match dispatch_choice c (zs iw) (zs lw) (zs llw) (zs w) (bs s) with
+       | CNarrow -> "narrow"
+       | CBase (bw, sg) -> "base " ^ string_of_z bw ^ " " ^ (if sg then "1" else "0")
+       | CFatal -> "fatal")
+  | ["ngop"; gf; ng; bi; op; w; s; lw; llw; a; b] ->
+      let f (cb, ca, sw) =
+        string_of_oc (nogil_node (bs gf) (bs ng)
+          (binop_node (bs bi) (cop_of op) (zs w) (bs s) (zs lw) (zs llw) cb ca sw (zs a) (zs b))) in
+      let rs = List.map f bools3 in
+      let r0 = List.hd rs in
+      if List.for_all (fun r -> r = r0) rs then r0 else "!DISAGREE " ^ String.concat "|" rs
   | ["skip"] -> "SKIP"
   | _ -> "!ERR badcmd"
 
